@@ -217,8 +217,45 @@ def eval_spec(job):
     """worker: run one batch and evaluate the row oracles of job['props'] on it.
     Returns {"n": rows, "viol": [...], "nontrivial": [...distinct keys...], "counts": {}}"""
     spec, props = job["spec"], job["props"]
+    before = [] if spec.get("fresh") else pipeline.prior(spec)
     out = pipeline.run(spec)
-    return evaluate(spec, out, props)
+    r = evaluate(spec, out, props)
+    if r["viol"] and before:
+        _localise(spec, props, before, r)
+    return r
+
+
+_LOCALISED = {}
+
+
+def _same(w, v):
+    return w["key"] == v["key"] and w["case"].get("index") == v["case"].get("index")
+
+
+def _localise(spec, props, before, r):
+    """A row can fail because of what this worker's long-lived Balancer was asked to do in EARLIER runs (state kept
+    on the instance).  For the first failures of every root cause find out, here in the worker, whether the run fails
+    on a fresh Balancer as well, and if not, how many of the most recent earlier runs have to be replayed on a fresh
+    Balancer to make it fail again; that history becomes part of the case (and of its replay file)."""
+    for v in r["viol"]:
+        k = repr(v["key"])
+        if _LOCALISED.get(k, 0) >= 2:
+            continue
+        _LOCALISED[k] = _LOCALISED.get(k, 0) + 1
+        fresh = dict(spec, fresh=True)
+        if any(_same(w, v) for w in evaluate(fresh, pipeline.run(fresh), props)["viol"]):
+            continue   # self-contained
+        n = 1
+        while True:
+            hist = before[-n:]
+            again = evaluate(spec, pipeline.run_history(hist, spec), props)["viol"]
+            if any(_same(w, v) for w in again):
+                v["case"]["history"] = hist
+                v["what"] += " [a fresh Balancer that first ran the {} preceding run(s) of this worker]".format(len(hist))
+                break
+            if n >= len(before) or n >= 64:
+                break
+            n *= 2
 
 
 def evaluate(spec, out, props):
@@ -485,7 +522,9 @@ def drive(prop, universes, seed, level="exploration", minimise=True):
                                  v["key"], v["what"])
                 k = repr(viol.key)
                 per_key[k] = per_key.get(k, 0) + 1
-                if minimise and per_key[k] <= 3 and "index" in viol.case and len(viol.case["batch"]) > 1:
+                if viol.case.get("history"):
+                    viol.priority = 0   # localised in the worker: fails again on a fresh Balancer after this history
+                if minimise and per_key[k] <= 3 and "index" in viol.case and len(viol.case["batch"]) > 1 and not viol.case.get("history"):
                     single = dict(viol.case)
                     single["batch"] = [viol.case["batch"][viol.case["index"]]]
                     single["index"] = 0
@@ -538,7 +577,10 @@ def replay_rows(v, prop):
         spec = {"rxns": case["batch"], "threshold": case.get("threshold", 0),
                 "batch_size": case.get("batch_size")}
     spec["fresh"] = True
-    out = pipeline.run(spec)
+    if case.get("history"):
+        out = pipeline.run_history(case["history"], spec)
+    else:
+        out = pipeline.run(spec)
     r = evaluate(spec, out, [prop])
     again = []
     for w in r["viol"]:
